@@ -6,6 +6,7 @@ line numbers stay aligned with the input.
 -/
 import Driver.Notation
 import Driver.TreeIO
+import Driver.RuleIO
 
 open Lean Driver
 
@@ -14,7 +15,7 @@ def allOps : List (String × Handler) :=
 
 /-- ops that read or extend the driver state (registered documents) -/
 def allStateOps : List (String × SHandler) :=
-  treeOps
+  treeOps ++ ruleOps
 
 def derr (e : String) : String := (Json.mkObj [("driver_error", Json.str e)]).compress
 
